@@ -106,9 +106,10 @@ def _cold(d: str, flags: list[str], targets: list[str], true_cold: bool) -> dict
 
 
 def toggle(widx: int, flags_a: list[str], flags_b: list[str], config: list[str], true_cold: bool = False,
-           ini_a: str | None = None, ini_b: str | None = None) -> dict[str, Any]:
+           ini_a: str | None = None, ini_b: str | None = None, files: dict[str, str] | None = None,
+           targets: list[str] | None = None) -> dict[str, Any]:
     """run(a) -> run(b) -> run(a) on ONE cache dir; each warm run compared with a cold run of the same options."""
-    w = witnesses.ALL[widx]
+    w = {"files": files, "targets": targets or ["main.py"]} if files is not None else witnesses.ALL[widx]
     d = basic.fresh_dir("opt")
     try:
         common.write_files(d, w["files"], mtime=1_550_000_000)
